@@ -15,9 +15,16 @@ def seqs_of(rec, fid):
 def pipeline_cases(run):
     rng = run.rng
     n = 0
-    for it in range(run.n(36, 900)):
+    nlong = run.n(1, 6)
+    for it in range(run.n(36, 900) + nlong):
         topo = rng.choice(['chain', 'chain', 'tee', 'rejoin', 'join', 'topics'])
         nf = rng.randint(6, 18)
+        long_join = it < nlong
+        if long_join:
+            # an independent join that runs long enough for one source's lead over the other to reach the PUB/SUB pipe's capacity
+            # (SNDHWM 20 + RCVHWM 1000 messages on the pinned code): the waiting consumer repeats its request to BOTH sources
+            # every 100 ms, and each repeat lets the fast one publish one more frame
+            topo = 'join'
         delay = rng.choice([(0, 0), (0, 20), (0, 80)])
         seed = rng.randrange(10 ** 6)
         W = lambda: rng.choice([0, 0, 0.05, 0.15, 0.4, 1.5, 3.0])
@@ -64,9 +71,16 @@ def pipeline_cases(run):
                 allq = list(range(nf))
                 ref = dict(ra=allq, rb=allq, join=allq)
             else:                   # two independent sources joined
-                specs = [dict(id='src', kind='src', n=nf, outputs=a0[0], outputs_required='join', topics=['a']),
-                         dict(id='src2', kind='src', n=nf, outputs=a1[0], outputs_required='join', topics=['b'], period=W()),
-                         dict(id='join', kind='sink', sources=[a0[1], a1[1]], work=W())]
+                per2, n1, wj = W(), nf, W()
+                if long_join:
+                    per2 = rng.choice([0.25, 0.4])
+                    nf = int(510 * (1 + 1 / (per2 * 10))) + rng.randint(15, 40)   # 2 messages per frame: 510 frames fill the pipe
+                    n1, wj = 10 ** 6, 0
+                    case.update(frames=nf, long_join=True)
+                case.update(period2=per2)
+                specs = [dict(id='src', kind='src', n=n1, outputs=a0[0], outputs_required='join', topics=['a']),
+                         dict(id='src2', kind='src', n=nf, outputs=a1[0], outputs_required='join', topics=['b'], period=per2),
+                         dict(id='join', kind='sink', sources=[a0[1], a1[1]], work=wj)]
                 ref = dict(join=list(range(nf)))
         p = pipes.Pipeline(specs, seed=seed, delay_ms=delay)
         rec = p.run(600, max_steps=400000)
@@ -74,9 +88,11 @@ def pipeline_cases(run):
         run.count('pipe:%s' % topo)
         run.count('pipe:steps', p.world.steps)
         run.seen(('pipe', repr(case)))
-        if p.world.stats['dropped_hwm']:
+        overflow = p.world.stats['dropped_hwm']
+        if overflow:
+            # a publish found the subscriber's pipe full and was dropped by zmq.  Nothing in the property's assumptions excludes
+            # this (delays are below the request interval, every filter runs promptly): a frame lost this way is a lost frame
             run.count('pipe:runs-with-hwm-drops')
-            continue                      # outside the property's assumptions (delays below the request interval keep queues short)
         if topo == 'topics':
             got_topics = [sorted(e['data']) for e in rec.inputs('sink')]
             got_seqs = [sorted({v[1] for v in e['data'].values()}) for e in rec.inputs('sink')]
@@ -92,8 +108,14 @@ def pipeline_cases(run):
             if flat != want:
                 miss = [q for q in want if q not in flat]
                 key = 'lost-first' if miss[:1] == [0] else 'lost' if miss else 'extra-or-reordered'
-                run.violation('pipeline:%s %s at=%s' % (key, topo, fid),
-                              '%s: filter %s saw %s, the composition of the upstream filters gives %s' % (topo, fid, flat[:30], want[:30]), case)
+                if overflow:
+                    j = next((i for i in range(len(want)) if i >= len(flat) or flat[i] != want[i]), len(want))
+                    run.violation('pipeline:queue-overflow %s at=%s pipe-capacity=%d' % (topo, fid, p.world.stats.get('hwm_cap', -1)),
+                                  '%s: %d publishes were dropped because a subscriber pipe (capacity %d messages) was full; filter %s saw %d sets, the first %d as expected, then %s where the composition of the upstream filters gives %s'
+                                  % (topo, overflow, p.world.stats.get('hwm_cap', -1), fid, len(flat), j, flat[j:j + 4], want[j:j + 4]), case)
+                else:
+                    run.violation('pipeline:%s %s at=%s' % (key, topo, fid),
+                                  '%s: filter %s saw %s, the composition of the upstream filters gives %s' % (topo, fid, flat[:30], want[:30]), case)
             if topo == 'rejoin' and fid == 'join':
                 for e in rec.inputs('join'):
                     d = e['data']
